@@ -10,6 +10,10 @@ EXPR_TECH = "TLA+ spec (spec/Expr.tla + spec/Rat.tla: expression trees, exact ra
 SD_TECH = "TLA+ spec (spec/SdModel.tla over spec/Rat.tla: explicit-Euler state machine with exact rational arithmetic, EulerRelation/FlowsNonNegative/GridExact checked by TLC); every TLC-generated trajectory replayed into the implementation and compared element by element at every grid time"
 SCN_TECH = "TLA+ spec (spec/Scenario.tla: managers, scenarios, settings, explicit object identity of points dictionaries, one session) + TLC exhaustive invariants/action properties; TLC-generated operation histories replayed into a real bptk object with the results of every scenario and of the base model compared after every action against a fresh computation carrying exactly the settings in force"
 CHECKS = {
+ "C08": dict(cat="model_checking", ref="6/C08",
+    text="spec/Memo.tla. Part 1: definitions carry version counters and memo cells record the versions they were computed with; TLC checks NoStale exhaustively over edit/evaluate histories (constant, stock initial value, flow and converter equations, first definition of a so far undefined input, cache reset); all short histories and long random ones are replayed on a real Model and every evaluation is compared with a freshly built model carrying the final definitions; runs are repeated with different equation lists. Part 2: memoize as Check / Compute / Store per worker thread over the shared cell of a stochastic element; TLC checks SingleValued over every interleaving of 2-3 threads; every emitted schedule is forced on the real Model.memoize by the line-level scheduler and the value each thread reports is compared with the value dependents consumed and with the memo; sequential consumers on decimal grids (t - dt chains) are checked for the same property. Both listed deviations (D08a, D08b) violate the invariants in the spec",
+    note="anchors of Model.memoize found by text/regex; stochastic values are never compared with numbers, only for single-valuedness",
+    tech="TLA+ spec + TLC exhaustive invariants; TLC-generated edit histories replayed with a fresh-model oracle; TLC-generated thread schedules forced on the implementation (sys.settrace scheduler)"),
  "C06": dict(cat="model_checking", ref="6/C06",
     text="spec/Scenario.tla: TLC checks BaseIntact and the action property Isolated (an action on one scenario leaves what every other scenario is simulated with unchanged) exhaustively; the shared-dictionary deviation violates BaseIntact in the spec. Histories over 1-2 managers registered from one base model and 2-3 scenarios (register with/without constants, points, run specs and manager base values; batch run; REST /run settings; set_property_value; begin/step/end of a session with settings; cache reset) are replayed (all histories of length 3-5 plus long random ones); after EVERY action all scenarios and the base model object are evaluated and compared",
     note="a scenario in a live session is not run in batch at the same time; step settings only on scenarios that list the value (KF-C07-1)",
